@@ -43,7 +43,19 @@ func staleWriteback(c *Ctx, rule string, fs []*ssa.Function, sec, label string) 
 			// the first one's node: every read instruction with the same origin text is a source too)
 			src := map[ssa.Instruction]bool{}
 			texts := map[string]bool{}
+			precise := false
 			for _, a := range call.Common().Args {
+				// a record kept in a local: its sources are the reads whose result is assigned to that very local (a second
+				// read assigned to another variable of the same name — `stream, ok := k.Get(...)` in an inner block — is not)
+				if ps := localSources(a, reads); len(ps) > 0 {
+					precise = true
+					for _, rd := range ps {
+						if rd != wb {
+							src[rd] = true
+						}
+					}
+					continue
+				}
 				w.ExprOf(a).Walk(func(x *ir.Expr) bool {
 					if x.Call != nil && x.Call != wb && reads(x.Call) {
 						src[x.Call] = true
@@ -95,7 +107,7 @@ func staleWriteback(c *Ctx, rule string, fs []*ssa.Function, sec, label string) 
 					break
 				}
 			}
-			if stale != "" && flatRereads(c, f, sec) {
+			if stale != "" && !precise && flatRereads(c, f, sec) {
 				// judged on the call-expanded view: the re-read may stand in a helper that settles and refreshes the
 				// caller's record through a pointer
 				stale = ""
@@ -180,4 +192,37 @@ func flatRereads(c *Ctx, f *ssa.Function, sec string) bool {
 		}
 	}
 	return true
+}
+
+// localSources: v is the load of a local record; returns the section reads whose result is stored whole into that local.
+// nil when v is not such a load or some whole store of the local comes from elsewhere.
+func localSources(v ssa.Value, reads func(ssa.Instruction) bool) []ssa.Instruction {
+	u, ok := v.(*ssa.UnOp)
+	if !ok {
+		return nil
+	}
+	al, ok := u.X.(*ssa.Alloc)
+	if !ok || al.Referrers() == nil {
+		return nil
+	}
+	var out []ssa.Instruction
+	for _, r := range *al.Referrers() {
+		if _, isCall := r.(ssa.CallInstruction); isCall {
+			return nil // its address is handed on: a helper may refresh it
+		}
+		st, ok := r.(*ssa.Store)
+		if !ok || st.Addr != ssa.Value(al) {
+			continue
+		}
+		val := st.Val
+		if ex, ok := val.(*ssa.Extract); ok {
+			val = ex.Tuple
+		}
+		call, ok := val.(*ssa.Call)
+		if !ok || !reads(call) {
+			return nil
+		}
+		out = append(out, call)
+	}
+	return out
 }
